@@ -656,8 +656,8 @@ func TestD24ServerSideCsvNegativeIndexAndReadErrors(t *testing.T) {
 		t.Fatalf("well-formed server-side CSV -> %d %s %v", code, b, p)
 	}
 	for name, text := range map[string]string{
-		"negrow.csv":  "i,j,v\n-1,0,1\n",
-		"negcol.csv":  "i,j,v\n0,-1,1\n",
+		"negrow.csv":   "i,j,v\n-1,0,1\n",
+		"negcol.csv":   "i,j,v\n0,-1,1\n",
 		"badquote.csv": "i,j,v\n0,1,1\n\"0,1,2\n",
 	} {
 		code, b, p := doHTTP(e, "POST", "/basic/v1/compute", body(write(name, text)))
